@@ -12,6 +12,7 @@ Nothing here edits shared files; asn1c and the skeletons come from vlib.REPO."""
 import bisect, os, re, subprocess
 from vlib import *
 import modgen, widegen
+import c19_zoo as ZOO
 
 # ---------------------------------------------------------------------------
 # hand-made modules: every constructed kind, members with and without constraints of
@@ -102,6 +103,9 @@ VARIANTS = [
 SKEL_EXCLUDE_C19 = {"converter-example.c"}
 RO_CFLAGS = ["-std=gnu99", "-w", "-O1", "-g", "-fPIC", "-finstrument-functions", "-DASN_PDU_COLLECTION"]
 THR_CFLAGS = ["-std=gnu99", "-w", "-O1", "-g", "-fsanitize=thread", "-DASN_PDU_COLLECTION"]
+# the gcov build: the same battery with the image left writable (the counters live in .bss); -O0 so that every source-level
+# branch is a branch of the object code
+COV_CFLAGS = ["-std=gnu99", "-w", "-O0", "-g", "--coverage", "-DASN_PDU_COLLECTION"]
 TSAN_ENV = dict(os.environ, TSAN_OPTIONS="exitcode=66:halt_on_error=0:second_deadlock_stack=1:report_signal_unsafe=0:suppressions=" +
                 os.path.join(HARNESS, "c19_tsan.supp"))
 
@@ -115,8 +119,9 @@ CANARY_SYMS = ("c19_canary_data", "c19_canary_bss", "c19_canary_same")
 
 
 def modules_for(rng, tier):
-    """-> list of (module dict, [type names], {type: [DER hex seeds]})"""
-    mods = [({"name": "C19K", "text": K0}, K0_TYPES, K0_SEEDS), ({"name": "C19X", "text": K1}, K1_TYPES, K1_SEEDS)]
+    """-> list of (module dict, [type names], {type: [DER hex seeds]}); a module dict may carry "peers" (see c19_zoo.Z0_PEERS)"""
+    mods = [({"name": "C19K", "text": K0}, K0_TYPES, K0_SEEDS), ({"name": "C19X", "text": K1}, K1_TYPES, K1_SEEDS),
+            ({"name": "C19Z", "text": ZOO.Z0, "peers": ZOO.Z0_PEERS}, ZOO.Z0_TYPES, ZOO.Z0_SEEDS)]
     g = modgen.Gen(rng).module("C19G", 6 if tier == "quick" else 10)
     mods.append((g, [n for n, _ in g["defs"]], {}))
     return mods
@@ -125,21 +130,29 @@ def modules_for(rng, tier):
 def write_pdu_table(outdir, mods):
     with open(os.path.join(outdir, "pdu_table.c"), "w") as f:
         f.write("#include <asn_application.h>\n")
-        for _, names, seeds in mods:
+        for m, names, seeds in mods:
             for n in names:
                 f.write("extern asn_TYPE_descriptor_t asn_DEF_%s;\n" % n)
             for n, hs in seeds.items():
                 f.write("static const char *const seeds_%s[] = {%s, 0};\n" % (n, ", ".join('"%s"' % h for h in hs)))
-        f.write("struct pdu_ent { const char *name; asn_TYPE_descriptor_t *td; const char *const *seeds; };\n")
+            # peers: {dst: [src...]} (encodings of src are also decoded as dst) -> per source type the list of destinations
+            fwd = {}
+            for dst, srcs in (m.get("peers") or {}).items():
+                for src in srcs:
+                    fwd.setdefault(src, []).append(dst)
+            m["_decode_as"] = fwd
+            for n, ds in fwd.items():
+                f.write("static const char *const decode_as_%s[] = {%s, 0};\n" % (n, ", ".join('"%s"' % d for d in ds)))
+        f.write("struct pdu_ent { const char *name; asn_TYPE_descriptor_t *td; const char *const *seeds; const char *const *decode_as; };\n")
         f.write("struct pdu_ent pdu_table[] = {\n")
-        for _, names, seeds in mods:
+        for m, names, seeds in mods:
             for n in names:
-                f.write('  {"%s", &asn_DEF_%s, %s},\n' % (n, n, ("seeds_" + n) if n in seeds else "0"))
-        f.write("  {0, 0, 0}\n};\n")
+                f.write('  {"%s", &asn_DEF_%s, %s, %s},\n' % (n, n, ("seeds_" + n) if n in seeds else "0", ("decode_as_" + n) if n in m["_decode_as"] else "0"))
+        f.write("  {0, 0, 0, 0}\n};\n")
 
 
-def build_variant(asn1c, skel, root, tag, opts, xcflags, mods, skip_rx=None):
-    """generate + compile one variant in both builds.  -> dict(dir, ro_exe, lib, thr_exe, nfiles) ; raises BuildError"""
+def build_variant(asn1c, skel, root, tag, opts, xcflags, mods, skip_rx=None, cov=False):
+    """generate + compile one variant in both builds (+ a gcov build, `cov`).  -> dict(dir, ro_exe, lib, thr_exe, nfiles) ; raises BuildError"""
     d = os.path.join(root, tag)
     gen = os.path.join(d, "gen")
     os.makedirs(gen, exist_ok=True)
@@ -156,7 +169,13 @@ def build_variant(asn1c, skel, root, tag, opts, xcflags, mods, skip_rx=None):
     ssrcs = sorted(f for f in os.listdir(sk) if f.endswith(".c") and f not in SKEL_EXCLUDE_C19 and not (skip_rx and re.search(skip_rx, f)))
     inc = "-I%s -I%s" % (gen, sk)
     mk = ["CC=gcc", "XC=" + " ".join(xcflags), "RO=%s $(XC) %s" % (" ".join(RO_CFLAGS), inc), "TH=%s $(XC) %s" % (" ".join(THR_CFLAGS), inc),
-          "DRV=" + os.path.join(HARNESS, "c19drv.c"), "all: ro/c19drv th/c19drv"]
+          "CV=%s $(XC) %s" % (" ".join(COV_CFLAGS), inc),
+          "DRV=" + os.path.join(HARNESS, "c19drv.c"), "all: ro/c19drv th/c19drv" + (" cov/c19drv" if cov else "")]
+    cv_objs = ["cov/g_%s.o" % s[:-2] for s in gsrcs] + ["cov/s_%s.o" % s[:-2] for s in ssrcs]
+    mk.append("cov/g_%.o: gen/%.c\n\t@$(CC) $(CV) -c $< -o $@")
+    mk.append("cov/s_%%.o: %s/%%.c\n\t@$(CC) $(CV) -c $< -o $@" % sk)
+    mk.append("cov/c19drv: $(DRV) %s\n\t@$(CC) -std=gnu99 -w -O1 -g $(XC) %s $(DRV) %s --coverage -lpthread -lm -o $@" % (" ".join(cv_objs), inc, " ".join(cv_objs)))
+    os.makedirs(os.path.join(d, "cov"), exist_ok=True)
     ro_objs = ["ro/g_%s.o" % s[:-2] for s in gsrcs] + ["ro/s_%s.o" % s[:-2] for s in ssrcs]
     th_objs = ["th/g_%s.o" % s[:-2] for s in gsrcs] + ["th/s_%s.o" % s[:-2] for s in ssrcs]
     mk.append("ro/g_%.o: gen/%.c\n\t@$(CC) $(RO) -c $< -o $@")
@@ -175,7 +194,7 @@ def build_variant(asn1c, skel, root, tag, opts, xcflags, mods, skip_rx=None):
     if rc != 0:
         raise BuildError("c19 variant %s build failed:\n%s" % (tag, out[-3000:]))
     return {"tag": tag, "dir": d, "ro_exe": os.path.join(d, "ro", "c19drv"), "lib": os.path.join(d, "ro", "libc19mod.so"),
-            "thr_exe": os.path.join(d, "th", "c19drv"), "nfiles": len(gsrcs) + len(ssrcs), "opts": list(opts) + list(xcflags)}
+            "thr_exe": os.path.join(d, "th", "c19drv"), "cov_exe": os.path.join(d, "cov", "c19drv") if cov else None, "nfiles": len(gsrcs) + len(ssrcs), "opts": list(opts) + list(xcflags)}
 
 
 # ---------------------------------------------------------------------------
@@ -334,3 +353,112 @@ def list_types(v):
             kv = dict(x.split("=") for x in m.group(3).split())
             ts.append(dict(name=m.group(1), elements=int(m.group(2)), **{k: int(x) for k, x in kv.items()}))
     return ts
+
+
+def run_cov(v, seed, iters, timeout=900):
+    """runs the ro battery in the gcov build and reads the counters of every skeleton source.
+    -> dict(summary, functions, functions_never_executed=[...], lines, lines_never_executed, branches, branches_never_taken,
+            per_file={file: {...}}, untaken_by_function={"file:function": n})"""
+    import json
+    d = os.path.join(v["dir"], "cov")
+    for f in os.listdir(d):
+        if f.endswith(".gcda"):
+            os.unlink(os.path.join(d, f))
+    rc, out = sh([v["cov_exe"], "cov", str(seed), str(iters)], cwd=v["dir"], timeout=timeout)
+    res = {"rc": rc, "summary": next((l for l in out.split("\n") if l.startswith("RO ")), ""), "per_file": {}, "functions_never_executed": [],
+           "untaken_by_function": {}, "untaken_lines": {}}
+    tot = {"functions": 0, "functions_executed": 0, "lines": 0, "lines_executed": 0, "branches": 0, "branches_taken": 0}
+    gcdas = sorted(f for f in os.listdir(d) if f.startswith("s_") and f.endswith(".gcda"))
+    if not gcdas:
+        res["error"] = "no .gcda written: " + out[-500:]
+        return res
+    rc2, js = sh("gcov -b -c -j -t " + " ".join(gcdas), cwd=d, timeout=timeout)
+    skdir = os.path.join(REPO, "skeletons")
+    for line in js.split("\n"):
+        line = line.strip()
+        if not line.startswith("{"):
+            continue
+        try:
+            j = json.loads(line)
+        except ValueError:
+            continue
+        for fl in j.get("files", []):
+            fn = fl["file"]
+            if not fn.endswith(".c") or os.path.dirname(os.path.abspath(os.path.join(d, fn))) != os.path.abspath(skdir):
+                continue       # headers (inline helpers) are counted with the .c that includes them only once below; generated code is left out
+            base = os.path.basename(fn)
+            pf = res["per_file"].setdefault(base, {"functions": 0, "functions_executed": 0, "lines": 0, "lines_executed": 0, "branches": 0, "branches_taken": 0})
+            for f in fl.get("functions", []):
+                pf["functions"] += 1
+                if f.get("execution_count", 0) > 0:
+                    pf["functions_executed"] += 1
+                else:
+                    res["functions_never_executed"].append("%s (%s)" % (f["name"], base))
+            for ln in fl.get("lines", []):
+                pf["lines"] += 1
+                pf["lines_executed"] += 1 if ln.get("count", 0) > 0 else 0
+                for b in ln.get("branches", []):
+                    if b.get("throw"):
+                        continue
+                    pf["branches"] += 1
+                    if b.get("count", 0) > 0:
+                        pf["branches_taken"] += 1
+                    else:
+                        k = "%s:%s" % (base, ln.get("function_name", "?"))
+                        res["untaken_by_function"][k] = res["untaken_by_function"].get(k, 0) + 1
+                        res["untaken_lines"].setdefault(base, set()).add(ln["line_number"])
+    for pf in res["per_file"].values():
+        for k in tot:
+            tot[k] += pf[k]
+    res.update(tot)
+    res["functions_never_executed"].sort()
+    res["branches_never_taken"] = tot["branches"] - tot["branches_taken"]
+    res["lines_never_executed"] = tot["lines"] - tot["lines_executed"]
+    res["untaken_lines"] = {k: sorted(x) for k, x in res["untaken_lines"].items()}
+    return res
+
+
+def shape_sides(v):
+    """runs `c19drv shapes` -> {key: {side: [type names with a value source]}} for one built variant"""
+    rc, out = sh([v["ro_exe"], "shapes"], timeout=60)
+    res = {}
+    for line in out.split("\n"):
+        if not line.startswith("SHAPE "):
+            continue
+        m = re.match(r"SHAPE (.*?) src=(\S+)(.*)$", line)
+        if not m or m.group(2) not in ("fill", "seeds", "parent"):
+            continue
+        for kv in m.group(3).split():
+            k, _, val = kv.partition("=")
+            for side in val.split(","):
+                res.setdefault(k, {}).setdefault(side, []).append(m.group(1))
+    return res
+
+
+def shape_report(per_variant):
+    """per_variant: {tag: shape_sides(...)} -> dict(keys, sides_expected, sides_seen, missing=[...], unreachable=[...], unknown=[...], table={key: {side: n types}})
+    against the decision list c19_zoo.SHAPES"""
+    seen = {}
+    for tag, ss in per_variant.items():
+        for k, sides in ss.items():
+            for side, ts in sides.items():
+                seen.setdefault(k, {}).setdefault(side, set()).update("%s:%s" % (tag, t) for t in ts)
+    missing, unreachable, table, nexp, nseen = [], [], {}, 0, 0
+    known = {}
+    for key, sides, where, impossible in ZOO.SHAPES:
+        known[key] = sides
+        table[key] = {}
+        for side in sides:
+            n = len(seen.get(key, {}).get(side, ()))
+            table[key][side] = n
+            if side in impossible:
+                unreachable.append({"key": key, "side": side, "why": impossible[side], "where": where})
+                continue
+            nexp += 1
+            if n:
+                nseen += 1
+            else:
+                missing.append({"key": key, "side": side, "meaning": sides[side], "where": where})
+    unknown = sorted("%s=%s" % (k, s) for k, sides in seen.items() for s in sides if s not in known.get(k, {}))
+    return {"keys": len(ZOO.SHAPES), "sides_expected": nexp, "sides_seen": nseen, "missing": missing, "unreachable_by_generated_code": unreachable,
+            "unknown": unknown, "types_per_side": table}
